@@ -178,11 +178,62 @@ pub open spec fn lex(keys: Seq<SortingAttr>, a: EntryTree, b: EntryTree, from: i
 {
     if from >= keys.len() { Ordering::Equal } else if !(key(keys[from], a, b) is Equal) { key(keys[from], a, b) } else { lex(keys, a, b, from + 1) }
 }
+// direction: --sortr compares exactly the other way round
+pub open spec fn flip(o: Ordering) -> Ordering { match o { Ordering::Less => Ordering::Greater, Ordering::Equal => Ordering::Equal, Ordering::Greater => Ordering::Less } }
+pub open spec fn dir(reverse: bool, o: Ordering) -> Ordering { if reverse { flip(o) } else { o } }
+pub assume_specification [core::cmp::Ordering::reverse] (o: Ordering) -> (r: Ordering) ensures r == flip(o);
+// argument labels of one benchmark: SortingAttr::cmp_bench_arg_names (its own harnesses: verif_c16::*), uninterpreted here
+pub uninterp spec fn arg_order(attr: SortingAttr, a: &str, b: &str) -> Ordering;
+impl SortingAttr {
+    #[verifier::external_body]
+    pub fn cmp_bench_arg_names(self, a: &&str, b: &&str) -> (r: Ordering) ensures r == arg_order(self, *a, *b) { unimplemented!() }
+}
 // THE ORDER: the chosen attribute, then the other two as tie-breakers (same entry = Equal)
 pub open spec fn entry_order(attr: SortingAttr, a: EntryTree, b: EntryTree) -> Ordering {
     if addr_ord(a, b) == Some(Ordering::Equal) { Ordering::Equal } else { lex(tie_spec(attr), a, b, 0) }
 }
 """
+
+
+def sort_sections(tr):
+    """EntryTree::sort_by_attr: the closures it hands to the std sorts, outlined as functions (text copied): the direction
+    closure, the node comparator, the argument comparator, and the arguments of the recursive call."""
+    import re
+    f = tr.find_fn("sort_by_attr", impl=r"impl<'a> EntryTree<'a>")
+    body = f.body_text()
+    def one(rx, what):
+        m = re.findall(rx, body, flags=re.S)
+        if len(m) != 1:
+            raise rsx.LostAnchor(f"{TREE}: sort_by_attr: {what} found {len(m)} times, expected 1")
+        return m[0]
+    A = r"((?:[^,;()]|\([^()]*\))+?)"
+    rev_body = one(r"let\s+apply_reverse\s*=\s*\|\s*ordering\s*:\s*Ordering\s*\|\s*(\{.*?\})\s*;\s*tree\s*\.", "the apply_reverse closure")
+    node_cmp = one(r"tree\s*\.\s*sort_unstable_by\s*\(\s*\|\s*a\s*,\s*b\s*\|\s*(.*?)\)\s*;\s*tree\s*\.\s*iter_mut", "the comparator given to tree.sort_unstable_by")
+    arg_cmp = one(r"args\s*\.\s*sort_by\s*\(\s*\|\s*&a\s*,\s*&b\s*\|\s*(\{.*?\})\s*\)\s*;", "the comparator given to args.sort_by")
+    rec = one(r"Self\s*::\s*sort_by_attr\s*\(\s*children\s*,\s*" + A + r"\s*,\s*" + A + r"\s*,?\s*\)\s*;", "the recursive call")
+    fix = lambda t: re.sub(r"apply_reverse\s*\(", "apply_reverse(reverse, ", t)
+    line = f.line
+    def sec(name, text, dropped):
+        s_ = Section(name=name, kind="code", origin=f"{TREE}:{line}", text=text)
+        s_.dropped = [dropped]
+        return s_
+    return [
+        sec("EntryTree::sort_by_attr (closure apply_reverse, outlined)",
+            "pub fn apply_reverse(reverse: bool, ordering: Ordering) -> (r: Ordering)\n    ensures r == dir(reverse, ordering),\n" + rev_body,
+            "closure `apply_reverse` outlined as a function; its captured `reverse` becomes a parameter"),
+        sec("EntryTree::sort_by_attr (node comparator given to sort_unstable_by, outlined)",
+            "pub fn node_cmp(a: &EntryTree, b: &EntryTree, attr: SortingAttr, reverse: bool) -> (r: Ordering)\n"
+            "    ensures r == dir(reverse, entry_order(attr, *a, *b)),\n{ " + fix(node_cmp) + " }",
+            "closure outlined as a function; apply_reverse(x) -> apply_reverse(reverse, x)"),
+        sec("EntryTree::sort_by_attr (argument comparator given to args.sort_by, outlined)",
+            "pub fn arg_cmp(a: &&str, b: &&str, attr: SortingAttr, reverse: bool) -> (r: Ordering)\n"
+            "    ensures r == dir(reverse, arg_order(attr, *a, *b)),\n" + fix(arg_cmp),
+            "closure outlined as a function (its `&a, &b` patterns become reference parameters); apply_reverse(x) -> apply_reverse(reverse, x)"),
+        sec("EntryTree::sort_by_attr (arguments of the recursive call on children, outlined)",
+            "pub fn recursive_args(attr: SortingAttr, reverse: bool) -> (r: (SortingAttr, bool))\n"
+            "    ensures r.0 == attr && r.1 == reverse,\n{ (" + rec[0] + ", " + rec[1] + ") }",
+            "only the two argument expressions of `Self::sort_by_attr(children, .., ..)` are kept"),
+    ]
 
 
 def cmp_file(S: Sources):
@@ -219,6 +270,7 @@ def cmp_file(S: Sources):
                   sig_subst=[(r"\battr\s*:\s*SortingAttr", "attr0: SortingAttr", 1)],
                   clauses="ensures r == entry_order(attr0, *self, *other),")
     secs += wrap_impl("impl EntryTree", [sec])
+    secs += sort_sections(tr)
     import copy
     csecs = copy.deepcopy(secs) + [ghost("canaries", """
 pub fn canary_cmp(a: &EntryTree, b: &EntryTree, attr: SortingAttr) { let o = a.cmp_by_attr(b, attr); assert(false); }
